@@ -233,6 +233,7 @@ def run(prog, chk):
     from rules import c06
     c06.removal_rules(prog, chk, R3="R8.5", R4="R8.6")
     pattern_from_tagged_pieces_rule(prog, chk)
+    bracket_grammar_rules(prog, chk)
 
 
 def pattern_from_tagged_pieces_rule(prog, chk):
@@ -267,3 +268,92 @@ def pattern_from_tagged_pieces_rule(prog, chk):
             else:
                 chk.ok("R8.7", "plain-text-pattern@%s" % short(fn), "pattern text does not come from a word expansion in this body", nontrivial=False, function=fn)
     chk.floor("R8.7", "Pattern constructions in the interpreter / tests / expansion", n, 4)
+
+
+def bracket_grammar_rules(prog, chk):
+    """R8.8 / R8.9 (grammar of brush-parser/src/pattern.rs, read from the source on every run).
+    R8.8: a `]` that comes first in a bracket expression (after the optional `!`/`^`) is an ordinary member: between the optional
+    inversion and the closing "]" the grammar accepts a literal "]" followed by further members (`[]a]`, `[!]]`, `[]]`).
+    R8.9: a backslash-escaped letter or digit inside a bracket expression is not copied into the regular expression as `\\c` — there
+    `\\d`, `\\w`, `\\s`, `\\a`, `\\b` … are classes or control characters, so `[\\d]` would match any digit instead of the letter d."""
+    import os
+    import peg
+    from extract import REPO
+    path = os.path.join(REPO, "brush-parser/src/pattern.rs")
+    chk.rule("R8.8", "pattern grammar: a closing bracket directly after `[` / `[!` / `[^` is a literal member of the bracket expression")
+    chk.rule("R8.9", "pattern grammar: an escaped letter or digit inside a bracket expression is emitted as itself, never as a regex escape `\\c`")
+    try:
+        G = peg.load(path).get("pattern_to_regex_translator")
+    except OSError:
+        G = None
+    if not G or "bracket_expression" not in G:
+        chk.fail("R8.8", "brush_parser::pattern", "grammar-missing", "pattern_to_regex_translator::bracket_expression not found in %s" % path, nontrivial=False)
+        return
+
+    def starts_with_close(rule, seen=()):
+        """does some alternative of `rule` begin with the literal "]" and go on with more elements?"""
+        if rule not in G or rule in seen:
+            return False
+        for alt in peg.split_alternatives(G[rule]):
+            els = [e for e in peg.elements(alt) if e["kind"] != "action"]
+            if els and els[0]["kind"] == "lit" and els[0]["text"] == "]" and not els[0]["prefix"]:
+                return True
+            if els and els[0]["kind"] == "class" and "']'" in els[0]["text"] and "!=" not in els[0]["text"] and not els[0]["prefix"]:
+                return True
+            if els and els[0]["kind"] == "call" and not els[0]["prefix"] and starts_with_close(els[0]["text"], seen + (rule,)):
+                return True
+        return False
+
+    found = False
+    n_alt = 0
+    for alt in peg.split_alternatives(G["bracket_expression"]):
+        els = [e for e in peg.elements(alt) if e["kind"] != "action"]
+        if not (els and els[0]["kind"] == "lit" and els[0]["text"] == "["):
+            continue
+        n_alt += 1
+        body = els[1:]
+        # drop the optional inversion
+        if body and ("invert" in body[0]["text"] or body[0].get("label") == "invert"):
+            body = body[1:]
+        if not body:
+            continue
+        first = body[0]
+        if first["kind"] == "lit" and first["text"] == "]" and len(body) > 1:
+            found = True            # "[" invert? "]"? members "]"
+        elif first["kind"] == "group" and first["text"].lstrip().startswith('"]"') or first["kind"] == "group" and first["text"].lstrip().startswith("]"):
+            found = True
+        elif first["kind"] == "call" and starts_with_close(first["text"]):
+            found = True
+    chk.floor("R8.8", "bracket_expression alternatives", n_alt, 1)
+    if found:
+        chk.ok("R8.8", "leading-close-bracket-is-a-member", "the member list may begin with a literal ']'", function="brush_parser::pattern::bracket_expression")
+    else:
+        chk.fail("R8.8", "brush_parser::pattern::bracket_expression", "leading-close-bracket-not-a-member",
+                 "the bracket expression grammar does not accept `]` as its first member: `[]a]`, `[!]]` and `[]]` are not bracket expressions, so "
+                 "`[[ ']' == []] ]]`, `case a in []a])` and `echo f[]a]` take the text literally (bash: `]` first is an ordinary member)")
+    # R8.9
+    rule = "single_char_bracket_member"
+    if rule not in G:
+        chk.fail("R8.9", "brush_parser::pattern", "grammar-missing", "rule %s not found" % rule, nontrivial=False)
+        return
+    guarded = False
+    n_esc = 0
+    for alt in peg.split_alternatives(G[rule]):
+        els = peg.elements(alt)
+        if not (els and els[0]["kind"] == "class" and els[0]["text"].replace(" ", "") in ("['\\\\']", "['\\']")):
+            continue
+        n_esc += 1
+        cls = els[1]["text"] if len(els) > 1 and els[1]["kind"] == "class" else ""
+        act = " ".join(e["text"] for e in els if e["kind"] == "action")
+        verbatim = "\\{" in act.replace(" ", "") or "\\\\{" in act.replace(" ", "")
+        if "alphanumeric" in cls or ("alphabetic" in cls and "digit" in cls):
+            if not verbatim:
+                guarded = True
+            continue
+        if verbatim and not guarded:
+            chk.fail("R8.9", "brush_parser::pattern::" + rule, "escaped-alphanumeric-copied-as-regex-escape",
+                     "an escaped character inside a bracket expression is copied into the regular expression as `\\c` for every c (line %s): `[\\d]` matches any digit "
+                     "instead of the letter d, `[\\w]` any word character, `[\\a]` BEL" % (alt[0].line if alt else "?"))
+            return
+    chk.floor("R8.9", "escape alternatives in " + rule, n_esc, 1)
+    chk.ok("R8.9", "escaped-alphanumerics-stand-for-themselves", "the verbatim `\\c` copy is reached only for non-alphanumeric c", function="brush_parser::pattern::" + rule)
